@@ -58,7 +58,18 @@ def scenario(a):
             c08_edit.update(cmd_extra=True, field_extra=True, event_extra=True, variant_extra=True)
             s = c08_edit
             c08.write_state(root, s, path, absolute=True)
-        # ---- faulty run
+        # ---- faulty run; every second scenario makes it a FORCED run (--force / force: true): a forced run that fails must not leave
+        #      an older cache record standing either
+        forced_fault = seed % 2 == 1 and kind != "ENOTDIR"
+        if forced_fault:
+            if path == "cli":
+                plain_argv = argv
+                argv = lambda force=False, _a=plain_argv: _a(True)      # noqa: E731
+            else:
+                cfgp = os.path.join(root, "typegen.json")
+                c_ = json.load(open(cfgp))
+                c_["force"] = True
+                json.dump(c_, open(cfgp, "w"))
         tpath = out if target == "<output-dir>" else os.path.join(out, target)
         obstacle = None
         if kind == "EISDIR":
@@ -95,6 +106,12 @@ def scenario(a):
             rf, ev = fsmon.run_traced(argv(), cwd=root, hash_seed=seed % 97 + 1, inject=inj, inject_path=tpath)
             info["injected"] = any(e["injected"] for e in (ev or [])) or (rf.rc is not None and rf.rc < 0) or rf.rc == 137
         info["faulty_rc"] = rf.rc
+        if forced_fault:
+            # the runs that follow are plain, non-forced runs again
+            if path == "cli":
+                argv = plain_argv
+            elif kind != "ENOTDIR":
+                c08.write_state(root, s, path, absolute=True)
         if rf.timed_out:
             return {"inconclusive": "watchdog"}
         if rf.panicked:
@@ -137,7 +154,10 @@ def scenario(a):
                              "after the obstacle was removed, non-forced run %d reported success (last line %r) but %s w.r.t. a fresh generation" % (
                                  k, rr.out.strip().splitlines()[-1][:60] if rr.out.strip() else "", bad)))
                 break
-        wit = {"target": target, "kind": kind, "phase": phase, "mode": mode, "path": path, "hash_seed": seed % 97, "files": [[p, t] for p, t in c08.render(s)]}
+        wit = {"target": target, "kind": kind, "phase": phase, "mode": mode, "path": path, "hash_seed": seed % 97, "faulty_run_forced": forced_fault, "files": [[p, t] for p, t in c08.render(s)]}
+        if forced_fault:
+            viol = [(a2 + " faulty-run-forced", b2) for (a2, b2) in viol]
+            info["forced"] = True
         return {"viol": [(a2, b2, wit) for (a2, b2) in viol], "info": info}
     finally:
         common.rmtree(root)
@@ -188,6 +208,8 @@ def run(tier):
             v.case(key, nontrivial=False)
             continue
         hit += 1
+        if r["info"].get("forced"):
+            v.count("scenarios_with_a_forced_faulty_run")
         exits[str(r["info"]["faulty_rc"])] = exits.get(str(r["info"]["faulty_rc"]), 0) + 1
         v.case(key, nontrivial=True, sample={"target": job[2], "fault": job[3], "phase": job[4], "mode": job[5], "path": job[6], "faulty_exit": r["info"]["faulty_rc"], "recovery_exits": r["info"]["recovery_rc"]})
         for (sig, what, wit) in r["viol"]:
